@@ -95,6 +95,19 @@ def main():
     )
     facts.append("Definition offspring_is_mutated_crossover_of_population : bool := %s." % ("true" if shape else "false"))
 
+    # next_meta_params: override | exploratory | selected from the population's meta parameters (mutated or not)
+    m = need(r"fn\s+next_meta_params\s*\(&mut self\)[^{]*\{(.*?)\n    \}", algo, "next_meta_params")
+    nb = re.sub(r"\s+", "", m.group(1))
+    nshape = (
+        nb.startswith("ifletSome(meta_params_override)=&self.meta_params_override{returnwrap(meta_params_override.clone(),MetaParamsSource::Override);}")
+        and nb.count("wrap(meta_adapt::create_exploratory(&mutself.rng),MetaParamsSource::Exploratory,)") == 2
+        and "letmeta_params_ordered=self.individuals.values().filter_map(|ctx|ctx.meta_params_used.as_ref()).collect_vec();" in nb
+        and "letselected=SelectionImpl::new().select_ref(&meta_params_ordered,self.static_params.meta_params_select_pressure,&mutself.rng,).clone();" in nb
+        and "wrap(meta_adapt::mutate(selected.crossover_params,selected.mutation_params,&mutself.rng,),MetaParamsSource::SelectedAndMutated,)" in nb
+        and "wrap((selected.crossover_params,selected.mutation_params),MetaParamsSource::Selected,)" in nb
+    )
+    facts.append("Definition next_meta_params_is_override_exploratory_or_selected : bool := %s." % ("true" if nshape else "false"))
+
     ctl = strip_comments(read_nontest("controller.rs"))
     m = need(r"_\s*=\s*&mut\s+in_abort_signal_recv\s*(,\s*if\s+([^=]+?))?\s*=>", ctl, "abort branch of the controller select")
     guard = (m.group(2) or "").strip()
